@@ -79,21 +79,13 @@ class SleepUntilCommand(SubCommand):
 
 def _check_or_sleep_until(store, sleep_until):
     tasks = task.alltasks
-    active = set(tasks)
     for t in reversed(tasks):
-        if t not in active:
-            continue
         while not t.can_load(store):
             if sleep_until:
                 from time import sleep
                 sleep(12)
             else:
                 return 1
-        for dep in task.recursive_dependencies(t):
-            try:
-                active.remove(dep)
-            except KeyError:
-                pass
     return 0
 
 
